@@ -379,7 +379,14 @@ func GetTotalUniqueTraceIds(pipeSearchResponseOuter *segstructs.PipeSearchRespon
 
 func GetUniqueTraceIds(pipeSearchResponseOuter *segstructs.PipeSearchResponseOuter, startEpoch uint64, endEpoch uint64, page int) []string {
 	totalTracesIds := GetTotalUniqueTraceIds(pipeSearchResponseOuter)
-	if totalTracesIds < (page-1)*TRACE_PAGE_LIMIT {
+	if numBuckets := len(pipeSearchResponseOuter.MeasureResults); totalTracesIds > numBuckets {
+		totalTracesIds = numBuckets
+	}
+	// pages are numbered from 1
+	if page < 1 {
+		page = 1
+	}
+	if page-1 > totalTracesIds/TRACE_PAGE_LIMIT {
 		return []string{}
 	}
 
@@ -1211,6 +1218,10 @@ func ProcessSpanGanttChartRequest(ctx *fasthttp.RequestCtx, myid int64) {
 	}
 
 	traceIds := GetUniqueTraceIds(pipeSearchResponseOuter, startEpoch, endEpoch, page)
+	if len(traceIds) == 0 {
+		writeErrMsg(ctx, "ProcessSpanGanttChartRequest", "Span ID not found", nil)
+		return
+	}
 
 	traceId := traceIds[0]
 	if traceId == "" {
